@@ -72,7 +72,14 @@ def run(m, wid):
     if c.returncode != 0:
         rec["verdict"] = "no-compile"
         return rec
-    r = subprocess.run(["/verif/check", "ALL", "--repo", d], stdout=subprocess.PIPE, stderr=subprocess.STDOUT, text=True)
+    env2 = dict(os.environ, VERIF_DEV_NOVAC="1")
+    if f in ("internal.rs", "lib.rs", "future.rs"):
+        env2["VERIF_DEV_UNITS"] = "u1"; env2["VERIF_DEV_NOKANI"] = "1"
+    elif f in ("mutex.rs", "backoff.rs"):
+        env2["VERIF_DEV_UNITS"] = "u2"; env2["VERIF_DEV_NOKANI"] = "1"
+    else:
+        env2["VERIF_DEV_UNITS"] = "u2"
+    r = subprocess.run(["/verif/check", "ALL", "--repo", d], stdout=subprocess.PIPE, stderr=subprocess.STDOUT, text=True, env=env2)
     rec["verdict"] = {0: "SURVIVED", 1: "killed", 2: "undecided"}.get(r.returncode, "rc%d" % r.returncode)
     rec["detail"] = [l for l in r.stdout.splitlines() if l.startswith(("  obligation", "UNDECIDED"))][:3]
     return rec
